@@ -302,6 +302,27 @@ func DrawScript(r *Rng, cfg ScriptConfig, m *ModuleSpec, name string) proto.GenS
 			}
 		}
 	}
+	// how parts are handed over (the rendered text is the same whichever way)
+	via := func(ps []proto.Part) {
+		for k := range ps {
+			switch {
+			case ps[k].Ref != "" && ps[k].State == "" && r.P(0.3):
+				ps[k].Via = "expose-shared"
+			case ps[k].Text != "" && ps[k].State == "" && ps[k].Ref == "" && ps[k].Value == "" && ps[k].Tmpl == "" && ps[k].DocRef == "" && r.P(0.12):
+				ps[k].Via = "lazy"
+			}
+		}
+	}
+	for _, rules := range []map[string]proto.Rule{s.Rules, s.AliasRules} {
+		for _, key := range sortedKeys(rules) {
+			rule := rules[key]
+			via(rule.Render)
+			for d := range rule.Defers {
+				via(rule.Defers[d].Render)
+			}
+			rules[key] = rule
+		}
+	}
 	return s
 }
 
